@@ -38,7 +38,7 @@ struct C18 : drv::Harness
 		return p;
 	}
 
-	struct Sent { std::string raw, stime; bool app; sn::Fields body; };
+	struct Sent { std::string raw, stime; bool app; sn::Flds body; };
 
 	Result run(const Plan& p, bool verbose) override
 	{
